@@ -106,6 +106,24 @@ def parsePairs (j : Json) : Option (Array (Nat × Nat)) :=
     | _ => none
   | _ => none
 
+/-- the same loop as `Solve.loopWith`, step by step through `Solve.stepWith`, keeping every composite it creates -/
+def loopTrace (sched : List (St GRat) → Option (Nat × Nat)) : Nat → List (St GRat) → Nat → List (St GRat) →
+    Except Err (St GRat × List (St GRat))
+  | 0, live, _, acc => match live with
+    | [s] => .ok (s, acc.reverse)
+    | _ => .error .empty
+  | fuel + 1, live, fresh, acc => match live with
+    | [s] => .ok (s, acc.reverse)
+    | _ => match Solve.stepWith sched live fresh with
+      | .error e => .error e
+      | .ok live' => loopTrace sched fuel live' (fresh + 1) (match live'.getLast? with | some c => c :: acc | none => acc)
+
+/-- a composite as seen from outside: its pins (base structure, name) and the coefficient between every ordered pair -/
+def stToJson (s : St GRat) : Json :=
+  Json.mkObj [("pins", Json.arr (s.pins.map fun p => Json.arr #[toJson p.1, Json.str p.2]).toArray),
+              ("members", toJson (St.membersOf s)),
+              ("S", Json.arr (s.pins.map fun p => Json.arr (s.pins.map fun q => gratToJson (s.sem p q)).toArray).toArray)]
+
 def opSolve (j : Json) : Json :=
   match fromJson? (α := CaseJ) j with
   | .error e => errJson ("parse: " ++ e)
@@ -121,6 +139,16 @@ def opSolve (j : Json) : Json :=
         match (j.getObjVal? "sched").toOption >>= parsePairs with
         | some pairs => forcedSched n pairs
         | none => Solve.pySched
+      let wantTrace := match j.getObjVal? "trace" with | .ok (.bool true) => true | _ => false
+      if wantTrace then
+        match loopTrace sched n net.initial n [] with
+        | .error e => errJson (errName e)
+        | .ok (total, steps) =>
+          let rows := net.exposed.map fun e1 =>
+            Json.arr (net.exposed.map fun e2 => gratToJson (total.sem e1.2 e2.2)).toArray
+          Json.mkObj [("T", Json.arr rows.toArray), ("pins", toJson total.pins.length),
+                      ("steps", Json.arr (steps.map stToJson).toArray)]
+      else
       match Solve.loopWith sched n net.initial n with
       | .error e => errJson (errName e)
       | .ok total =>
